@@ -9,4 +9,8 @@ META = {
    technique="TLA+/TLC: ProgGen enumerates programs, SemiNaive.tla model-checked against Semantics.tla, real engine runs validated by Trace_Model",
    text="Bounded-exhaustive: every program of scope E1 (<=2 rules, <=2 literals, tight vocabulary) plus families and simulated larger programs is executed on every store and the whole resulting store is compared (both inclusions) by TLC with the stratified least model defined in Semantics.tla; the engine's round structure (SemiNaive.tla) is model-checked against the same definition.",
    note="Trusted: TLC, the hand-written Semantics.tla as the documented meaning, the JSON bridge (mgjson). Not covered: programs with run-time type errors, floats, external/deferred predicates."),
+ "C20": dict(level="model_checking", ref="DESIGN.md section 6 C20",
+   technique="TLA+/TLC: Naive.tla and SemiNaive.tla model-checked against Semantics.tla; both real evaluators run on TLC-generated programs and validated by Trace_Model",
+   text="Both evaluators are executed from equal stores on every program of scope E1 (safe rules), every transform-free one-rule E2 program and simulated larger E2 programs; TLC compares each resulting store with the stratified model, so the two stores are equal whenever both match. Naive.tla (T20) and SemiNaive.tla (T01) are model-checked against the same definition.",
+   note="Trusted: TLC, Semantics.tla, mgjson. Scope: transform-free programs as the property states; programs with kind errors are classified, not judged."),
 }
